@@ -23,8 +23,10 @@ EXTENDS Naturals, Sequences, FiniteSets, TLC, Json
 
 CONSTANTS MaxTampers     \* alterations applied before one decryption (1 or 2)
 
-VARIABLES scheme, len, enc, tampers, hist
-vars == <<scheme, len, enc, tampers, hist>>
+VARIABLES scheme, len, enc, tampers,
+          shared,    \* keys used so far on the ONE caller-owned copy of the untouched ciphertext ("same buffer")
+          hist
+vars == <<scheme, len, enc, tampers, shared, hist>>
 
 Schemes == {"ecies", "ibe-cca-g1", "ibe-cca-g2", "ibe-cpa-g1", "anon"}
 
@@ -91,6 +93,15 @@ DecTag(s, l, T, k) ==
   ELSE IF CoinFlip(s, l, T, k) THEN "free:8-bit-binding"
   ELSE IF Authenticated(s) THEN "det" ELSE "free:unauthenticated-scheme"
 
+(* Same buffer: a caller may hand the same ciphertext slice to Decrypt again (another key first, or twice).  The    *)
+(* property speaks about ciphertext VALUES, so for schemes whose decryption does not write to its input the verdict  *)
+(* of a call depends only on (ciphertext value, key), not on earlier calls: the buffer is byte-identical after every *)
+(* call and never holds plaintext.  anon.Decrypt of the pinned tree verifies its MAC in place (the tag bytes of the  *)
+(* caller's slice are overwritten - recorded as an observation in DESIGN 7); that scheme is exempt here and every    *)
+(* one of its decryptions gets a private copy.                                                                       *)
+PreservesInput(s) == s # "anon"
+MaxShared == 2
+
 \* no 8-byte-aligned block of the plaintext appears in an accepted ciphertext
 LeakAllowed == {"clean"}
 
@@ -98,38 +109,56 @@ LeakAllowed == {"clean"}
 Init ==
   /\ scheme \in Schemes
   /\ len \in {l \in LenClasses : LenOK(scheme, l)}
-  /\ enc = "none" /\ tampers = {} /\ hist = <<>>
+  /\ enc = "none" /\ tampers = {} /\ shared = <<>> /\ hist = <<>>
 
 Encrypt ==
   /\ enc = "none"
   /\ \E o \in EncAllowed(scheme, len) :
        /\ enc' = o
        /\ hist' = Append(hist, [act |-> "Encrypt", scheme |-> scheme, len |-> len, outcome |-> o,
-                                allowed |-> EncAllowed(scheme, len), tag |-> EncTag(scheme, len)])
-  /\ UNCHANGED <<scheme, len, tampers>>
+                                allowed |-> EncAllowed(scheme, len), tag |-> EncTag(scheme, len),
+                                message |-> {"intact"}])     \* the caller's message slice is not written to
+  /\ UNCHANGED <<scheme, len, tampers, shared>>
 
 LeakScan ==
   /\ enc = "ok" /\ tampers = {} /\ Len(hist) = 1
   /\ hist' = Append(hist, [act |-> "LeakScan", allowed |-> LeakAllowed])
-  /\ UNCHANGED <<scheme, len, enc, tampers>>
+  /\ UNCHANGED <<scheme, len, enc, tampers, shared>>
 
 Tamper(a) ==
   /\ enc = "ok" /\ Cardinality(tampers) < MaxTampers /\ a \notin tampers
   /\ hist[Len(hist)].act \in {"Encrypt", "Tamper"}
   /\ tampers' = tampers \cup {a}
   /\ hist' = Append(hist, [act |-> "Tamper", field |-> a.field, kind |-> a.kind])
-  /\ UNCHANGED <<scheme, len, enc>>
+  /\ UNCHANGED <<scheme, len, enc, shared>>
 
 Decrypt(k) ==
   /\ enc = "ok"
   /\ hist[Len(hist)].act \in {"Encrypt", "Tamper"}
   /\ hist' = Append(hist, [act |-> "Decrypt", key |-> k, allowed |-> DecAllowed(scheme, len, tampers, k),
                            tag |-> DecTag(scheme, len, tampers, k)])
+  /\ UNCHANGED <<scheme, len, enc, tampers, shared>>
+
+\* decryption of the caller-owned buffer holding the untouched ciphertext; verdict as for a fresh copy
+SharedDecrypt(k) ==
+  /\ enc = "ok" /\ PreservesInput(scheme) /\ tampers = {} /\ Len(shared) < MaxShared
+  /\ hist[Len(hist)].act \in {"Encrypt", "SharedDecrypt"}
+  /\ shared' = Append(shared, k)
+  /\ hist' = Append(hist, [act |-> "SharedDecrypt", key |-> k, allowed |-> DecAllowed(scheme, len, {}, k),
+                           tag |-> DecTag(scheme, len, {}, k), buffer |-> {"intact"}])
   /\ UNCHANGED <<scheme, len, enc, tampers>>
+
+\* scan of the caller's buffer after the calls
+SharedLeakScan ==
+  /\ enc = "ok" /\ Len(shared) >= 1 /\ hist[Len(hist)].act = "SharedDecrypt"
+  /\ hist' = Append(hist, [act |-> "SharedLeakScan", allowed |-> LeakAllowed])
+  /\ UNCHANGED <<scheme, len, enc, tampers, shared>>
 
 Next ==
   \/ Encrypt
   \/ LeakScan
+  \/ \E k \in KeyRels : SharedDecrypt(k)
+  \/ SharedLeakScan
   \/ \E a \in Alterations(scheme) : Tamper(a)
   \/ \E k \in KeyRels : Decrypt(k)
 
@@ -141,6 +170,7 @@ TypeOK ==
   /\ scheme \in Schemes /\ len \in LenClasses
   /\ enc \in {"none", "ok", "refused"}
   /\ tampers \subseteq Alterations(scheme)
+  /\ Len(shared) <= MaxShared
 
 SubsetsUpTo(S, n) == { T \in SUBSET S : Cardinality(T) <= n }
 
@@ -164,17 +194,25 @@ Static ==
   \* what certainly fits is accepted
   /\ \A l \in LenClasses : Fits(scheme, l) => EncAllowed(scheme, l) = {"ok"}
 
-Meta == (enc = "none" => Static) /\ (enc = "refused" => tampers = {})
+\* HistoryIndependent: what a call on the shared buffer may return never depends on the calls before it
+HistoryIndependent ==
+  \A i \in 1..Len(hist) : hist[i].act = "SharedDecrypt" =>
+       /\ hist[i].allowed = DecAllowed(scheme, len, {}, hist[i].key)
+       /\ (hist[i].key = "right" => hist[i].allowed = {"ok"})
+       /\ hist[i].buffer = {"intact"}
+
+Meta == (enc = "none" => Static) /\ (enc = "refused" => (tampers = {} /\ shared = <<>>))
+        /\ HistoryIndependent /\ (shared # <<>> => (PreservesInput(scheme) /\ tampers = {}))
 
 \* TamperMonotone as an action property over the behaviours: once decryption with the right key must fail, it must keep failing
 MustFail == enc = "ok" /\ DecAllowed(scheme, len, tampers, "right") = {"error"}
 TamperMonotone == [][MustFail => MustFail']_vars
 
 -----------------------------------------------------------------------------
-(* Generator: every maximal behaviour = Encrypt ; (LeakScan | Tamper* ; Decrypt). *)
-View == <<scheme, len, enc, tampers>>
+(* Generator: every maximal behaviour = Encrypt ; (LeakScan | Tamper* ; Decrypt | SharedDecrypt+ ; SharedLeakScan). *)
+View == <<scheme, len, enc, tampers, shared>>
 Terminal ==
   \/ enc = "refused"
-  \/ Len(hist) > 0 /\ hist[Len(hist)].act \in {"LeakScan", "Decrypt"}
+  \/ Len(hist) > 0 /\ hist[Len(hist)].act \in {"LeakScan", "Decrypt", "SharedLeakScan"}
 Emit == Terminal => PrintT(<<"TRACE", ToJson(hist)>>)
 =============================================================================
